@@ -25,7 +25,7 @@ from ladybug_geometry.geometry2d.line import LineSegment2D
 from ladybug_geometry.geometry3d.line import LineSegment3D
 
 TOL = 1e-9
-ASSUMPTIONS = ['valid inputs only (simple loops of non-zero area); scale factors > 0',
+ASSUMPTIONS = ['valid inputs only (simple loops of non-zero area); scale factors of either sign, non-zero',
                'numeric agreement within 1e-9 relative to the coordinate magnitude']
 TRUSTED = ['C03: getters other than Polygon2D.area/is_clockwise, and the transfer methods of '
            'Polyline/Mesh/Face3D/Polyface3D, are tied by history replay against fresh '
@@ -97,10 +97,17 @@ def magnitude(obj):
 
 # ------------------------------------------------------------------ classes under test
 def star(rng, n, cx=0.0, cy=0.0, rmin=1.0, rmax=3.0):
-    angs = sorted(rng.sample(range(48), n))
-    return [Point2D(cx + rng.uniform(rmin, rmax) * math.cos(2 * math.pi * a / 48),
-                    cy + rng.uniform(rmin, rmax) * math.sin(2 * math.pi * a / 48))
-            for a in angs]
+    while True:
+        # angular gaps below half a turn: the loop is star-shaped about the centre, hence simple
+        angs = sorted(rng.sample(range(48), n))
+        if max((b - a) % 48 for a, b in zip(angs, angs[1:] + angs[:1])) < 23:
+            break
+    out = []
+    for a in angs:
+        r = rng.uniform(rmin, rmax)
+        out.append(Point2D(cx + r * math.cos(2 * math.pi * a / 48),
+                           cy + r * math.sin(2 * math.pi * a / 48)))
+    return out
 
 
 def rand_plane(rng):
@@ -120,7 +127,7 @@ def t2(rng):
     o = Point2D(rng.uniform(-3, 3), rng.uniform(-3, 3))
     a = rng.uniform(0, 2 * math.pi)
     n = Vector2D(math.cos(a), math.sin(a)).normalize()
-    k = rng.choice([0.5, 2.0, 3.0, rng.uniform(0.05, 20)])
+    k = rng.choice([0.5, 2.0, 3.0, -1.0, -2.0, rng.uniform(0.05, 20), -rng.uniform(0.05, 20)])
     return {
         'move': lambda x: x.move(mv),
         'rotate': lambda x: x.rotate(ang, o),
@@ -143,7 +150,7 @@ def t3(rng):
         if n.magnitude > 0.1:
             n = n.normalize()
             break
-    k = rng.choice([0.5, 2.0, 3.0, rng.uniform(0.05, 20)])
+    k = rng.choice([0.5, 2.0, 3.0, -1.0, -2.0, rng.uniform(0.05, 20), -rng.uniform(0.05, 20)])
     return {
         'move': lambda x: x.move(mv),
         'rotate': lambda x: x.rotate(ax, ang, o),
@@ -192,13 +199,25 @@ class PolygonSpec(Spec):
         h = Polygon2D.from_rectangle(Point2D(2, 2), Vector2D(0, 1), 2, 3)
         out.append(('from_shape_with_hole', Polygon2D.from_shape_with_hole(
             list(b.vertices), list(h.vertices))))
+        pts = star(rng, rng.randint(3, 7))
+        deco = []
+        for a, c in zip(pts, pts[1:] + pts[:1]):
+            # 3 mm off the chord (removed with tolerance 0.01, yet convexity and
+            # self-intersection are decided far away from rounding), plus a duplicate
+            ux, uy = c.x - a.x, c.y - a.y
+            ln = math.hypot(ux, uy)
+            deco += [a, a, Point2D((a.x + c.x) / 2 - 0.003 * uy / ln,
+                                   (a.y + c.y) / 2 + 0.003 * ux / ln)]
+        out.append(('decorated', Polygon2D(deco)))
         return out
 
     def fresh(self, obj):
         return Polygon2D(tuple(obj.vertices))
 
     def extra_ops(self, rng, obj):
-        return {'reverse': lambda x: x.reverse()}
+        return {'reverse': lambda x: x.reverse(),
+                'remove_colinear': lambda x: x.remove_colinear_vertices(0.01),
+                'remove_duplicate': lambda x: x.remove_duplicate_vertices(0.01)}
 
 
 class Polyline2Spec(Spec):
@@ -207,15 +226,29 @@ class Polyline2Spec(Spec):
 
     def starts(self, rng):
         pts = star(rng, rng.randint(3, 7))
+        # a polyline with nearly colinear vertices and one with vertices exactly on its edges:
+        # the clean-up operations change its length
+        # (vertices 3 mm off the chord: removed with tolerance 0.01, not exactly colinear, so
+        # the outline never overlaps itself)
+        spike = [Point2D(0, 0), Point2D(2.5, 0.003), Point2D(5, 0), Point2D(5.003, 1.5),
+                 Point2D(5, 3), Point2D(7, 4)]
+        deco = []
+        for a, b in zip(pts, pts[1:]):
+            ln = math.hypot(b.x - a.x, b.y - a.y)
+            deco += [a, Point2D((a.x + b.x) / 2 - 0.003 * (b.y - a.y) / ln,
+                                (a.y + b.y) / 2 + 0.003 * (b.x - a.x) / ln)]
+        deco.append(pts[-1])
         return [('vertices', Polyline2D(pts)),
                 ('interpolated', Polyline2D(pts, interpolated=True)),
-                ('from_polygon', Polyline2D.from_polygon(Polygon2D(pts)))]
+                ('from_polygon', Polyline2D.from_polygon(Polygon2D(pts))),
+                ('spike', Polyline2D(spike)), ('decorated', Polyline2D(deco))]
 
     def fresh(self, obj):
         return Polyline2D(tuple(obj.vertices), obj.interpolated)
 
     def extra_ops(self, rng, obj):
-        return {'reverse': lambda x: x.reverse()}
+        return {'reverse': lambda x: x.reverse(),
+                'remove_colinear': lambda x: x.remove_colinear_vertices(0.01)}
 
 
 class Polyline3Spec(Spec):
@@ -226,14 +259,22 @@ class Polyline3Spec(Spec):
     def starts(self, rng):
         pl = rand_plane(rng)
         pts = [pl.xy_to_xyz(p) for p in star(rng, rng.randint(3, 7))]
+        spike = [pl.xy_to_xyz(p) for p in (Point2D(0, 0), Point2D(2.5, 0.003), Point2D(5, 0),
+                                           Point2D(5.003, 1.5), Point2D(5, 3), Point2D(7, 4))]
+        deco = []
+        for a, b in zip(pts, pts[1:]):
+            deco += [a, Point3D((a.x + b.x) / 2, (a.y + b.y) / 2, (a.z + b.z) / 2)]
+        deco.append(pts[-1])
         return [('vertices', Polyline3D(pts)),
-                ('interpolated', Polyline3D(pts, interpolated=True))]
+                ('interpolated', Polyline3D(pts, interpolated=True)),
+                ('spike', Polyline3D(spike)), ('decorated', Polyline3D(deco))]
 
     def fresh(self, obj):
         return Polyline3D(tuple(obj.vertices), obj.interpolated)
 
     def extra_ops(self, rng, obj):
-        return {'reverse': lambda x: x.reverse()}
+        return {'reverse': lambda x: x.reverse(),
+                'remove_colinear': lambda x: x.remove_colinear_vertices(0.01)}
 
 
 def pattern(rng, n, keep_at_least=1):
@@ -374,6 +415,13 @@ class FaceSpec(Spec):
         h = [pl.xy_to_xyz(p) for p in (Point2D(2, 2), Point2D(4, 2), Point2D(4, 5),
                                        Point2D(2, 5))]
         out.append(('holes', Face3D(b, None, [h])))
+        pts = star(rng, rng.randint(3, 7))
+        deco = []
+        for a, c in zip(pts, pts[1:] + pts[:1]):
+            ln = math.hypot(c.x - a.x, c.y - a.y)
+            deco += [a, Point2D((a.x + c.x) / 2 - 0.003 * (c.y - a.y) / ln,
+                                (a.y + c.y) / 2 + 0.003 * (c.x - a.x) / ln)]
+        out.append(('decorated', Face3D([pl.xy_to_xyz(p) for p in deco])))
         return out
 
     def fresh(self, obj):
@@ -381,7 +429,9 @@ class FaceSpec(Spec):
                       [tuple(h) for h in obj.holes] if obj.has_holes else None)
 
     def extra_ops(self, rng, obj):
-        return {'flip': lambda x: x.flip()}
+        return {'flip': lambda x: x.flip(),
+                'remove_colinear': lambda x: x.remove_colinear_vertices(0.01),
+                'remove_duplicate': lambda x: x.remove_duplicate_vertices(0.01)}
 
 
 class PolyfaceSpec(Spec):
@@ -431,8 +481,9 @@ def read(obj, prop):
         return tuple(f.normal for f in obj.faces)
     if prop == 'tri_mesh_':
         # a triangulation is not unique: compare what is determined by the shape
+        # (with vertices exactly on an edge even the number of triangles depends on rounding)
         m = obj.triangulated_mesh3d
-        return (m.area, len(m.faces), len(m.vertices))
+        return (m.area, len(m.vertices))
     if prop == 'volume_':
         # the volume of an open polyface is documented as not valid
         return obj.volume if obj.is_solid else None
@@ -450,6 +501,22 @@ def safe_read(obj, prop):
         return ('ok', read(obj, prop))
     except Exception as e:       # any exception is an observation, compared like a value
         return ('err', type(e).__name__)
+
+
+def check_start(spec, obj):
+    """Slots pre-seeded by a factory must already agree with a fresh object."""
+    try:
+        fr0 = spec.fresh(obj)
+    except AssertionError:
+        return None
+    scale0 = magnitude(obj)
+    for prop in spec.reads:
+        a = safe_read(obj, prop)
+        b = safe_read(fr0, prop)
+        if a[0] != b[0] or (a[0] == 'err' and a[1] != b[1]) or \
+                (a[0] == 'ok' and not same(a[1], b[1], scale0)):
+            return {'history': [], 'prop': prop, 'observed': _short(a), 'expected': _short(b)}
+    return None
 
 
 def run_history(spec, start, hist, rng_seed):
@@ -548,6 +615,25 @@ def run(ctx):
             ln = rng0.randint(3, 8)
             hists.append([rng0.choice(alphabet) for _ in range(ln)])
         cnt = 0
+        # factory-built start objects against fresh ones, several draws per factory
+        for rep in range(8 if not thorough else 60):
+            sts = spec.starts(random.Random('%s/c03/start/%s/%d' % (seed, spec.name, rep)))
+            for si0, (sname, sobj) in enumerate(sts):
+                evaluations += 1
+                cnt += 1
+                f = check_start(spec, sobj)
+                if f is None:
+                    continue
+                sig = hist_sig(spec.name, sname, [], f['prop'])
+                if sig in seen_sigs:
+                    continue
+                seen_sigs.add(sig)
+                failures.append({'signature': sig, 'class': spec.name, 'start': sname,
+                                 'history': [], 'prop': f['prop'], 'observed': f['observed'],
+                                 'expected': f['expected'], 'rng_seed': '%s/%d' % (seed, rep),
+                                 'start_index': si0, 'start_rep': rep,
+                                 'what': '%s built by %s: %s reads %s but a fresh object reads %s'
+                                 % (spec.name, sname, f['prop'], f['observed'], f['expected'])})
         for hi, hist in enumerate(hists):
             si = hi % n_starts
 
@@ -587,6 +673,15 @@ def run(ctx):
 def replay(ctx, fl):
     spec = [sp for sp in SPECS if sp.name == fl['class']][0]
     seed = fl['rng_seed'].split('/')[0]
+    if not fl['history'] and 'start_rep' in fl:
+        sobj = spec.starts(random.Random('%s/c03/start/%s/%d' % (
+            seed, spec.name, fl['start_rep'])))[fl['start_index']][1]
+        f = check_start(spec, sobj)
+        if f is None:
+            return None
+        out = dict(fl)
+        out.update({'observed': f['observed'], 'expected': f['expected'], 'prop': f['prop']})
+        return out
     start = spec.starts(random.Random('%s/c03/start/%s' % (seed, spec.name)))[fl['start_index']][1]
     hist = [tuple(x) for x in fl['history']]
     f = run_history(spec, start, hist, fl['rng_seed'])
